@@ -498,7 +498,10 @@ SvcPortsCat ==
     <<SP("p1", 2, OptNil), SP("p2", 4, OptNil), SP("a", 1, OptNum(2))>>,
     \* mixed kinds of targetPort within one Service: named / numeric first, defaulted after, and the other way round
     <<SP("p1", 2, OptName("http")), SP("p2", 4, OptNil)>>, <<SP("p1", 4, OptName("web")), SP("p2", 2, OptNil)>>,
-    <<SP("p1", 2, OptNum(4)), SP("p2", 4, OptNil)>>, <<SP("p1", 4, OptNil), SP("p2", 2, OptName("http"))>> }
+    <<SP("p1", 2, OptNum(4)), SP("p2", 4, OptNil)>>, <<SP("p1", 4, OptNil), SP("p2", 2, OptName("http"))>>,
+    \* a service port whose NAME is the targetPort name of another port of the same service
+    <<SP("web", 2, OptName("http")), SP("http", 4, OptNum(4))>>, <<SP("web", 4, OptName("http"))>>,
+    <<SP("http", 2, OptName("web")), SP("web", 4, OptName("http"))>> }
 
 SvcName(i) == "svc" \o ToString(i)
 
@@ -511,7 +514,7 @@ AddService ==
                [world EXCEPT !.services = Append(@, [ns |-> ns, name |-> SvcName(i), selNil |-> selNil,
                                                     selector |-> sel, ports |-> ps])])
 
-BackendPortCat == {OptNum(2), OptNum(4), OptName("p1"), OptName("p2"), OptName("a"), OptName("zz")}
+BackendPortCat == {OptNum(2), OptNum(4), OptName("p1"), OptName("p2"), OptName("a"), OptName("zz"), OptName("http"), OptName("web")}
 SvcRefCat == {"svc1", "svc2", "svc3", "nosvc"}
 
 (* backends of one Ingress: several of them may target one service through different ports *)
@@ -521,7 +524,10 @@ BackendListCat(s1, s2) ==
     <<[svc |-> s1, port |-> OptName("p2")], [svc |-> s1, port |-> OptName("p1")]>>,
     <<[svc |-> s1, port |-> OptNum(2)], [svc |-> s1, port |-> OptName("p2")]>>,
     <<[svc |-> s1, port |-> OptName("a")], [svc |-> s2, port |-> OptName("p1")]>>,
-    <<[svc |-> s1, port |-> OptName("zz")], [svc |-> s1, port |-> OptNum(4)], [svc |-> s2, port |-> OptNum(2)]>> }
+    <<[svc |-> s1, port |-> OptName("zz")], [svc |-> s1, port |-> OptNum(4)], [svc |-> s2, port |-> OptNum(2)]>>,
+    \* a backend port NAME that is the name of a targetPort / container port, not (or not only) of a service port
+    <<[svc |-> s1, port |-> OptName("http")]>>, <<[svc |-> s1, port |-> OptName("web")]>>,
+    <<[svc |-> s1, port |-> OptName("http")], [svc |-> s1, port |-> OptName("p1")]>> }
 
 AddIngress ==
   /\ Len(world.ingresses) < 2
